@@ -127,3 +127,9 @@ class KDict(dict):
 
 class KSet(set):
     pass
+
+
+def hot(*args, **kwargs):
+    """Same as hit under another three-letter name (equal-length content swaps in C02)."""
+    LOG.append(("hot", args, kwargs))
+    return ("hot-result",) + tuple(args)
